@@ -139,3 +139,70 @@ def fanout_rules(repo, res, RULE="T3-FANOUT"):
         raise Undecided("ShapeGroup.translate_rotate returns %s" % show(r))
 
     run("three member shapes", SH, "ShapeGroup", sg, sg_collect)
+
+
+def angle_domain_rule(repo, res, RULE="T8-ANGLES"):
+    """is_valid_orientation — the test every translate_rotate asserts on its angle —, evaluated for a scalar angle at
+    the ends of [-2pi, 2pi], inside and just outside: it accepts exactly the closed interval (a rotation by a whole
+    turn, in either direction, is an admissible motion)."""
+    import math
+
+    from ..strdom import Ev, FuncV, ListV, Sym, Undecided, _Raise, show
+
+    V = "commonroad/common/validity.py"
+    vmod = repo.mod(V)
+    fn = vmod.functions.get("is_valid_orientation")
+    if fn is None:
+        raise AnalysisError("validity.is_valid_orientation missing")
+    two_pi = 2 * math.pi
+    for label, val, want in (("-2pi", -two_pi, True), ("2pi", two_pi, True), ("0", 0.0, True), ("pi", math.pi, True), ("just below -2pi", -two_pi - 1e-9, False), ("just above 2pi", two_pi + 1e-9, False)):
+        theta = Sym("theta", "float")
+
+        def num(v):
+            from ..strdom import Ctor, ModRef, Term
+
+            if v is theta:
+                return val
+            if isinstance(v, (int, float)) and not isinstance(v, bool):
+                return float(v)
+            if isinstance(v, (Ctor, ModRef)) and v.name.split(".")[-1] == "pi":
+                return math.pi
+            if isinstance(v, Term):
+                a = [num(x) for x in v.args]
+                if v.op == "neg":
+                    return -a[0]
+                if v.op in ("+", "-", "*", "/") and len(a) == 2:
+                    return {"+": a[0] + a[1], "-": a[0] - a[1], "*": a[0] * a[1], "/": a[0] / a[1] if a[1] else float("nan")}[v.op]
+            raise Undecided("the number %s" % show(v))
+
+        def oracle(kind, a, b):
+            f = {"Lt": lambda x, y: x < y, "LtE": lambda x, y: x <= y, "Gt": lambda x, y: x > y, "GtE": lambda x, y: x >= y, "Eq": lambda x, y: x == y, "NotEq": lambda x, y: x != y}.get(kind)
+            if f is None:
+                return None
+            try:
+                return bool(f(num(a), num(b)))
+            except Undecided:
+                return None
+
+        ev = Ev(repo)
+        ev.pure_modules = {"math", "warnings", "npy", "np", "numpy"}
+        ev.assume_valid = False
+        ev.oracle = oracle
+        cmpf = {"greater": "Gt", "greater_equal": "GtE", "less": "Lt", "less_equal": "LtE"}
+        for nm, k in cmpf.items():
+            for pre in ("npy", "np", "numpy"):
+                ev.model_calls["%s.%s" % (pre, nm)] = lambda a, kw, k=k: oracle(k, a[0], a[1])
+        for pre in ("npy", "np", "numpy"):
+            ev.model_calls["%s.all" % pre] = lambda a, kw: all(ev.truth(x) for x in (a[0].items if isinstance(a[0], ListV) else [a[0]]))
+            ev.model_calls["%s.logical_and" % pre] = lambda a, kw: ev.truth(a[0]) and ev.truth(a[1])
+        bad = None
+        try:
+            r = ev.call_fn(FuncV(fn, mod=vmod), [theta], {}, fn)
+            got = ev.truth(r, fn)
+            if got is not want:
+                bad = "answers %s" % got
+        except _Raise as x:
+            bad = "raises %s" % x.what
+        except Undecided as x:
+            raise AnalysisError("is_valid_orientation [%s]: %s" % (label, x))
+        res.check(RULE, "is_valid_orientation [angle %s]: %s" % (label, "accepted" if want else "rejected"), bad is None, vmod, fn, "is_valid_orientation [angle %s] %s" % (label, bad), "an angle of the closed interval [-2pi, 2pi] is rejected (every translate_rotate then raises for it), or an angle outside is accepted", qualname="is_valid_orientation")
